@@ -184,7 +184,7 @@ def _justified(ctx, esc, it):
             pm = U.parents(f.node)
             g = [a for a in U.ancestors(c, pm) if isinstance(a, ast.If)]
             arg = norm_text(c.args[0]) if c.args else ''
-            ok = ok and bool(g) and norm_text(g[0].test) == '%s < 100' % arg
+            ok = ok and bool(g) and norm_text(g[0].test) in ('%s < 100' % arg, '100 > %s' % arg, '%s <= 99' % arg, '99 >= %s' % arg)
             if ok:
                 blk = None
                 for a in U.ancestors(g[0], pm):
